@@ -53,6 +53,7 @@ type Contract struct {
 	Trusted  bool // "trusted": ensures assumed, body not verified (listed as assumption)
 	NoSafety bool
 	Opaque   bool
+	Abstract bool // "abstract": paths through unsupported constructs are cut off (not verified, listed) instead of failing the whole function
 	used     bool
 }
 
@@ -89,7 +90,7 @@ type SpecGo struct{ E ast.Expr }
 var clauseKeywords = map[string]bool{
 	"func": true, "props": true, "requires": true, "ensures": true, "assigns": true,
 	"loop": true, "let": true, "sweep": true, "decreases": true, "inline": true, "trusted": true,
-	"nosafety": true, "global": true, "opaque": true, "define": true, "assumes": true,
+	"nosafety": true, "global": true, "opaque": true, "define": true, "assumes": true, "abstract": true,
 }
 
 var labelRe = regexp.MustCompile(`^\[([A-Za-z0-9_.\-]+)\]\s*`)
@@ -301,6 +302,9 @@ func (cs *ContractSet) addClause(pkg, file string, cur **Contract, line int, tex
 	case "opaque":
 		c.Opaque = true
 		return nil
+	case "abstract":
+		c.Abstract = true
+		return nil
 	}
 	cl := &Clause{Kind: kw, Line: line}
 	if kw == "loop" {
@@ -326,7 +330,7 @@ func (cs *ContractSet) addClause(pkg, file string, cur **Contract, line int, tex
 			c.Clauses = append(c.Clauses, cl)
 			return nil
 		}
-		if sub != "invariant" && sub != "decreases" {
+		if sub != "invariant" && sub != "decreases" && sub != "step" {
 			return errf("unknown loop clause %q", sub)
 		}
 	}
